@@ -106,7 +106,11 @@ def run_c13(ck, fb, fbd):
         cg = Canon(g)
         for b, i, x in inserts:
             extra = sorted({(cg.s(c_), p_) for c_, p_, e_ in g.facts(b) if isinstance(p_, bool) and (g.term(e_[0]) or {}).get("c") not in ("ForStmt", "WhileStmt", "CXXForRangeStmt", "DoStmt")})
-            (ck.ok if not extra else lambda r_, w, t: ck.violate(r_, w, t, "C13.clone:conditional:%s" % tag))("C13.clone", g.loc(x), "copy path <%s>: the clone-and-insert step depends on no condition besides the loop over the persistent set (%s)" % (tag, extra[:2] if extra else "unconditional"))
+            counts = [e_ for e_ in extra if re.search(r"\bn(_\w+)?\(\)|\.size\(\)|\.empty\(\)", e_[0]) and "persistent_props_" not in e_[0]]
+            if extra and not counts:
+                ck.cannot_judge("C13.clone %s: copy path <%s>: the clone-and-insert step is conditional on %s - whether every persistent property is still cloned is not judged" % (g.loc(x), tag, extra[:1]))
+            else:
+                (ck.ok if not extra else lambda r_, w, t: ck.violate(r_, w, t, "C13.clone:conditional:%s" % tag))("C13.clone", g.loc(x), "copy path <%s>: the clone-and-insert step depends on no entity count or container size - a persistent property exists whatever the counts are (%s)" % (tag, extra[:2] if extra else "unconditional"))
         (ck.ok if (ok_tag and only_persistent and ok_trk) else lambda r_, w, t: ck.violate(r_, w, t, "C13.clone:tag:%s" % tag))("C13.clone", where, "copy path <%s>: iterates only the source's persistent set of that tag and attaches each clone to this->storage_tracker<%s>()" % (tag, tag))
     (ck.ok if tags == set(ENTITY_TAGS) else lambda r_, w, t: ck.violate(r_, w, t, "C13.clone:tags"))("C13.clone", cp.where, "clone_persistent_properties_from covers all seven entity kinds (%s)" % sorted(tags))
     # operator=
